@@ -626,7 +626,7 @@ class C04(Prop):
         return cases
 
     def search_cases(self, rng, neighbours, rnd):
-        return [gen_case(rng) for _ in range(200)]
+        return [gen_case(rng) for _ in range(60)]
 
     # ---- implementation -------------------------------------------------------------------
     def run_impl(self, case):
